@@ -25,6 +25,7 @@ CONSTANTS Which,          \* "lucky" | "ntimed"
           UnconfToo,      \* BOOLEAN: also the zero value &LuckyPacketFilter{}
           Offs, Rtds,     \* sample values (model units)
           DistinctOnly,   \* BOOLEAN: only histories with pairwise distinct delays
+          Clk0s,          \* clock epochs at which an Ntimed behaviour may start (0: equal to the zero value's epoch)
           MaxEv,          \* bound on the number of events of a behaviour
           FilterAverage   \* const filterAverage = 20.0
 
@@ -167,7 +168,7 @@ LInit ==
   /\ win = << >> /\ lout = NoOut /\ lastn = << >>
 NInit ==
   /\ navg = 0 /\ fepoch = 0 /\ dep = << >> /\ nout = NNoOut /\ since = << >>
-  /\ clk \in {0, 1}
+  /\ clk \in Clk0s
 LIdle == cap = 0 /\ kcfg = 0 /\ pick = 0 /\ win = << >> /\ lout = NoOut /\ lastn = << >>
 NIdle == navg = 0 /\ fepoch = 0 /\ dep = << >> /\ nout = NNoOut /\ since = << >> /\ clk = 0
 
